@@ -9,7 +9,6 @@ import (
 	"strings"
 
 	"golang.org/x/tools/go/ssa"
-	"golang.org/x/tools/go/ssa/ssautil"
 )
 
 // ---------------------------------------------------------------------------
@@ -62,22 +61,47 @@ func (p *Program) RepoFuncs() []*ssa.Function {
 	if p.repoFuncs != nil {
 		return p.repoFuncs
 	}
-	all := ssautil.AllFunctions(p.Prog)
+	seen := map[*ssa.Function]bool{}
 	var out []*ssa.Function
-	for fn := range all {
-		if fn.Synthetic != "" || fn.Blocks == nil {
+	var add func(fn *ssa.Function)
+	add = func(fn *ssa.Function) {
+		if fn == nil || seen[fn] || fn.Synthetic != "" && !strings.HasPrefix(fn.Synthetic, "package initializer") || fn.Blocks == nil {
+			return
+		}
+		seen[fn] = true
+		out = append(out, fn)
+		for _, a := range fn.AnonFuncs {
+			add(a)
+		}
+	}
+	// Every declared function, every method of every named type (exported or
+	// not, value and pointer receiver), and all closures, of every repository
+	// package. (ssautil.AllFunctions skips methods of unexported types that
+	// are not otherwise referenced.)
+	for _, sp := range p.Prog.AllPackages() {
+		path := sp.Pkg.Path()
+		if !(isRepoPath(path) || strings.HasPrefix(path, "fixtures/")) {
 			continue
 		}
-		pk := fn.Package()
-		if pk == nil {
-			if fn.Parent() != nil {
-				pk = fn.Parent().Package()
+		for _, mem := range sp.Members {
+			switch m := mem.(type) {
+			case *ssa.Function:
+				add(m)
+			case *ssa.Type:
+				named, ok := m.Type().(*types.Named)
+				if !ok || named.TypeParams() != nil || types.IsInterface(named) {
+					continue
+				}
+				for _, T := range []types.Type{named, types.NewPointer(named)} {
+					ms := p.Prog.MethodSets.MethodSet(T)
+					for i := 0; i < ms.Len(); i++ {
+						fn := p.Prog.MethodValue(ms.At(i))
+						// promoted methods of embedded types produce synthetic wrappers: skipped by add()
+						add(fn)
+					}
+				}
 			}
 		}
-		if pk == nil || !(isRepoPath(pk.Pkg.Path()) || strings.HasPrefix(pk.Pkg.Path(), "fixtures/")) {
-			continue
-		}
-		out = append(out, fn)
 	}
 	sort.Slice(out, func(i, j int) bool {
 		if out[i].Pos() != out[j].Pos() {
@@ -322,6 +346,39 @@ func (p *pather) path1(v ssa.Value, d int) string {
 	case *ssa.Lookup:
 		return p.path(x.X, d) + "[" + p.path(x.Index, d) + "]"
 	case *ssa.Slice:
+		if a, ok := x.X.(*ssa.Alloc); ok && (a.Comment == "varargs" || a.Comment == "slicelit") && x.Low == nil && x.High == nil {
+			// a literal / variadic argument list: render its elements
+			elems := map[int64]string{}
+			max := int64(-1)
+			if a.Referrers() != nil {
+				for _, ref := range *a.Referrers() {
+					ia, ok := ref.(*ssa.IndexAddr)
+					if !ok || ia.Referrers() == nil {
+						continue
+					}
+					cv, ok := ia.Index.(*ssa.Const)
+					if !ok {
+						continue
+					}
+					idx := cv.Int64()
+					for _, r2 := range *ia.Referrers() {
+						if st, ok := r2.(*ssa.Store); ok && st.Addr == ssa.Value(ia) {
+							elems[idx] = p.path(st.Val, d)
+							if idx > max {
+								max = idx
+							}
+						}
+					}
+				}
+			}
+			if max >= 0 && max < 32 {
+				var parts []string
+				for i := int64(0); i <= max; i++ {
+					parts = append(parts, elems[i])
+				}
+				return "[" + strings.Join(parts, ", ") + "]"
+			}
+		}
 		lo, hi := "", ""
 		if x.Low != nil {
 			lo = p.path(x.Low, d)
